@@ -29,6 +29,20 @@ ASSUMPTIONS = [
 MIDPOINT = ("BinaryPartition", "DimensionBinaryPartition", "KaryPartition")
 
 
+def sig_bits(v):
+    """Number of significant mantissa bits of a double (0 for 0.0)."""
+    if v == 0 or not math.isfinite(v):
+        return 0
+    m, _ = math.frexp(abs(v))
+    n = int(m * (1 << 53))
+    return n.bit_length() - ((n & -n).bit_length() - 1)
+
+
+def name_compares_coordinates(case):
+    a = case["algo"]
+    return a["name"] == "Zooming" or (a["name"] == "DOO" and "delta" not in a["params"])
+
+
 def image_domain(dom, a, t):
     return [[a * float(lo) + t, a * float(hi) + t] for lo, hi in dom]
 
@@ -54,6 +68,7 @@ def run(case, rewards=None):
         except Exception as e:  # noqa: BLE001
             out["error"] = "%s@%d" % (type(e).__name__, len(out["points"]) + 1)
         out["splits"] = sum(1 for ev in s.split_log if ev["round"] >= 1)
+        out["maxdepth"] = max([rec.part.get_depth() for rec in s.recs] + [0])
     return out
 
 
@@ -70,6 +85,18 @@ def check_case(case):
     if any(not (lo < hi) or not math.isfinite(lo) or not math.isfinite(hi) for lo, hi in img["domain"]):
         return Outcome(aborted="degenerate-image", classes=classes)
     r2 = run(img, rewards=r1["rewards"] + [0.0] * (case["T"] - len(r1["rewards"])))
+    if exact and t != 0:
+        # a translation is exact only while every cell boundary of both trees is representable: bits for the
+        # integer part of the larger coordinates + one bit per halving + the bits of the box width must fit
+        per_level = math.log2(case["partition"].get("K", 2))
+        mag = max([abs(float(v)) for iv in case["domain"] + img["domain"] for v in iv] + [1.0])
+        wmin = min(float(hi) - float(lo) for lo, hi in case["domain"])
+        need = math.ceil(math.log2(mag)) + max(r1["maxdepth"], r2["maxdepth"]) * per_level - math.floor(math.log2(wmin)) + 3
+        if need > 52:
+            if name_compares_coordinates(case):
+                return Outcome(aborted="translation-not-exact-at-this-depth", classes=classes)
+            exact = False
+            classes.append("deep-translation-compared-with-tolerance")
     widths = [hi - lo for lo, hi in img["domain"]]
     mags = [max(abs(lo), abs(hi)) for lo, hi in img["domain"]]  # rounding scales with the coordinates' magnitude
     n = min(len(r1["points"]), len(r2["points"]))
@@ -83,6 +110,10 @@ def check_case(case):
         for k, (xi, yi) in enumerate(zip(x, y)):
             want = a * float(xi) + t
             invertible = (want - t) / a == float(xi)
+            if t != 0 and (sig_bits(float(xi)) > 44 or sig_bits(want) > 44):
+                # a translation is exact only while the coordinates have spare mantissa bits: beyond
+                # ~45 halvings of a small dyadic box the midpoints round differently in the two runs
+                invertible = False
             if abs(float(xi)) < 1e-250 or abs(want) < 1e-250:
                 # gradual underflow (also underflow to exactly 0 in one of the two runs): a power-of-two
                 # scaling is no longer exact there; such points are compared with the tolerance
@@ -109,11 +140,20 @@ def check_case(case):
     return Outcome(nontrivial=case["T"] >= 20 and r1["splits"] >= 2 and not ident, classes=classes, rounds=2 * case["T"])
 
 
+def _bias_zooming(draw, aspec):
+    """Refinements (where Zooming compares coordinates) need nu rho^depth to meet the radius early."""
+    if aspec["name"] == "Zooming":
+        aspec["params"]["nu"] = draw(st.one_of(st.floats(0.5, 10.0), gen.loguniform(0.05, 10.0)))
+        aspec["params"]["rho"] = draw(st.one_of(st.floats(0.7, 0.99), st.floats(0.05, 0.99)))
+
+
 @st.composite
 def cases(draw, tier):
     quick = tier == "quick"
     kind = draw(st.sampled_from(["scale", "scale", "translate", "tol"]))
-    name = draw(st.sampled_from(ALGOS))
+    # Zooming (containment test) and DOO (default delta) are the two places where coordinates are
+    # compared at all - the property's own anchors - so they get extra weight
+    name = draw(st.sampled_from(ALGOS + ("Zooming", "Zooming", "Zooming", "DOO")))
     if kind == "translate":
         # exact translations: midpoint partitions, small dyadic boxes, dyadic t, bounded depth
         d = draw(st.integers(1, 2))
@@ -128,8 +168,11 @@ def cases(draw, tier):
             pspec["K"] = draw(st.sampled_from([2, 4]))
         if name == "VROOM":
             name = "SOO"
-        aspec = draw(gen.algo_spec(name, d, pspec, n_range=(100, 200), poo_ok_only=True, gpo_ok_only=True))
-        T = draw(st.integers(20, min(gen.budget_of(aspec), 120)))
+        aspec = draw(gen.algo_spec(name, d, pspec, n_range=(100, 300), poo_ok_only=True, gpo_ok_only=True))
+        _bias_zooming(draw, aspec)
+        T = draw(st.integers(20, min(gen.budget_of(aspec), 250)))
+        if name == "DOO" and "delta" not in aspec["params"]:
+            T = min(T, 80)  # keeps DOO's tree shallower than the mantissa: its default delta compares widths
         case = {"algo": aspec, "partition": pspec, "domain": dom, "rng": draw(gen.rngs(script_prob=0.3)), "T": T,
                 "reward": draw(gen.rewards(laws=["peak", "bump", "noise", "ties", "negative"], d=d, T=T))}
         tt = draw(st.integers(-2 ** 20, 2 ** 20)) * draw(st.sampled_from([1.0, 0.5, 0.25, 1.0]))
@@ -138,16 +181,21 @@ def cases(draw, tier):
     case = draw(gen.run_case(names=[name], T_max=150 if quick else 400, n_range=(100, 300) if quick else (100, 600),
                              laws=["peak", "bump", "noise", "ties", "negative", "const"], poo_ok_only=True, gpo_ok_only=True,
                              script_prob=0.3, T_min=20))
+    _bias_zooming(draw, case["algo"])
     doo_default = name == "DOO" and "delta" not in case["algo"]["params"]
     if kind == "scale" or name in ("Zooming",) or doo_default:
         if doo_default:
             case["map"] = {"a": 1.0, "t": 0.0, "class": "exact"}  # scaling is the documented exception
             # an exact translation needs a friendly box: use the unit box and an integer shift
             case["domain"] = [[0.0, 1.0] for _ in case["domain"]]
+            case["T"] = min(case["T"], 80)
             if case["partition"]["cls"] in MIDPOINT and case["partition"].get("K", 2) in (2, 4):
                 case["map"]["t"] = float(draw(st.integers(-1000, 1000)))
         else:
-            case["map"] = {"a": 2.0 ** draw(st.integers(-20, 20)), "t": 0.0, "class": "exact"}
+            # scalings far beyond the unit box as well: an absolute threshold (an epsilon, a unit-box
+            # assumption) shows only when the box is that small or that large
+            k = draw(st.one_of(st.integers(-20, 20), st.integers(-60, 60), st.sampled_from([-52, -50, -48, -46, -44, 48, 52])))
+            case["map"] = {"a": 2.0 ** k, "t": 0.0, "class": "exact"}
     else:
         case["map"] = {"a": draw(st.floats(0.01, 100.0)), "t": draw(st.floats(-1000.0, 1000.0)), "class": "tol"}
     return case
